@@ -23,6 +23,8 @@ func main() {
 		os.Exit(drive(os.Args[2:]))
 	case "pairs":
 		os.Exit(pairsMain(os.Args[2:]))
+	case "tpairs":
+		os.Exit(tpairsMain(os.Args[2:]))
 	case "delays":
 		os.Exit(delaysMain(os.Args[2:]))
 	case "meta":
